@@ -74,6 +74,7 @@ Definition nsec3_no_ds_proof (t : name) (g : dgroup) : Prop :=
       b32_display (H (dg_iter g) (dg_salt g) t) = Ok enc /\
       ((label_eqb (first_label (dg_owner g)) enc = true /\ dhas rt_DS g = false /\ dhas rt_SOA g = false /\ dhas rt_NS g = true) \/
        (label_eqb (first_label (dg_owner g)) enc = false /\
+        H (dg_iter g) (dg_salt g) t <> oh /\ H (dg_iter g) (dg_salt g) t <> dg_nexth g /\     (* strictly covered *)
         nsec3_in_range (H (dg_iter g) (dg_salt g) t) oh (dg_nexth g) = true /\ dg_optout g = true)))).
 
 Theorem nsec3_for_ds_insecure_sound t gs :
@@ -103,7 +104,7 @@ Proof.
           destruct (dg_valid g) eqn:V; cbn [negb]; [|discriminate];
           destruct (dg_optout g) eqn:O; cbn [negb]; [|discriminate];
           intros _; exists g; split; [left; reflexivity|]; split; [exact R|]; split; [exact V|]; right;
-          split; [lia|]; split; [lia|]; split; [exact A|]; split; [exact P|]; exists oh, enc; split; [exact L|]; split; [exact B|]; right; repeat split; assumption ]).
+          split; [lia|]; split; [lia|]; split; [exact A|]; split; [exact P|]; exists oh, enc; split; [exact L|]; split; [exact B|]; right; split; [exact M|]; split; [apply (nsec3_in_range_strict _ _ _ Rg)|]; split; [apply (nsec3_in_range_strict _ _ _ Rg)|]; split; assumption ]).
 Qed.
 
 (* insecure_only_with_no_ds_proof: create_child_node turns a DS reply without DS
@@ -117,6 +118,13 @@ Proof.
   - discriminate.
   - discriminate.
   - intros X. destruct (nsec3_for_ds_insecure_sound t gs X) as (g & I0 & P). exists g. auto.
+Qed.
+(* whatever else the DS reply carries: insecure needs one of the proofs, a CNAME never yields it *)
+Theorem ds_reply_insecure_only_with_proof t cn gs :
+  ds_reply_decision H ci cb t cn gs = Ok InsecureDelegation ->
+  cn = NoCname /\ exists g, In g gs /\ (nsec_no_ds_proof t g \/ nsec3_no_ds_proof t g).
+Proof.
+  destruct cn; simpl; try discriminate. intros X. split; [reflexivity|]. apply insecure_only_with_no_ds_proof. exact X.
 Qed.
 End DS3P.
 
